@@ -109,6 +109,7 @@ TOK_RULES = [
  ("Lexicon::word_", r"assert_failed", "debug_assert_eq!(word_idx.lex_type, self.lex_type): components are looked up by their own tag (DISPATCH rule)", None),
  ("UnkHandler::word_", r"assert_failed", "debug_assert_eq!(lex_type, Unknown): dispatch by tag (DISPATCH rule)", None),
  ("UnkHandler::word_", r"index\(arg1\.entries", "word_id of an unknown word is the loop variable of offsets[c]..offsets[c+1] <= entries.len() in scan_entries, narrowed to u16 without loss (unk.def has at most 65536 entries)", UNKLEN),
+ ("WordParams::get", r"index\(arg1\.params,arg2\)", "word ids come from the trie postings, which list indices of the entries the parameters were built from (same Vec order in Lexicon::from_entries, PARALLEL rule); on the confirmed tree this accessor is also reached by the builders (Lexicon::verify) and is then audited there", None),
  ("WordFeatures::get", r"index", "word ids come from the trie postings, which list indices of the entries the features were built from (same Vec order in Lexicon::from_entries)", None),
  ("Postings::ids", r".*", "offsets stored in the trie are the offsets PostingsBuilder::push returned; data[i] is the length it wrote in front of the ids, so i+1+len <= data.len()", None),
  ("CharInfo::length", r"cast", "the field occupies the top bits: only 32-28 = 4... bits remain after the shift", None),
